@@ -300,7 +300,7 @@ type Client interface {
 	Inline(callee *ssa.Function) bool
 	// OnLoopExit is called when a loop is left through its header after the
 	// fixpoint; backs are the back-edge states of the final round.
-	OnLoopExit(x *Exec, st *State, mark *Term, backs []*State)
+	OnLoopExit(x *Exec, st *State, mark *Term, backs []*State, phiLists []*Term)
 	// BeforeInline / AfterInline bracket the simulation of an inlined callee.
 	BeforeInline(x *Exec, st *State, fr *Frame, site ssa.CallInstruction, callee *ssa.Function, args []*Term)
 	AfterInline(x *Exec, st *State, fr *Frame, site ssa.CallInstruction, callee *ssa.Function, args []*Term, val *Term)
@@ -951,8 +951,19 @@ func (x *Exec) execLoop(fr *Frame, li *loopInfo, pred *ssa.BasicBlock, st *State
 		}
 		for _, o := range outs {
 			if o.kind == outBackEdge {
+				pi := predIdx(o.from)
+				if pi >= 0 {
+					// a slice carried by a phi is updated like a stored cell
+					x.marks = append(x.marks, cur)
+					for _, ph := range phis {
+						if _, ok := phiVals[ph]; ok {
+							x.C.OnStore(x, o.st, o.fr, token.NoPos, mk("phicell", cur.key+ph.Name(), nil), x.val(o.fr, ph.Edges[pi]))
+						}
+					}
+					x.marks = x.marks[:len(x.marks)-1]
+				}
 				backs = append(backs, x.renameBack(o.st, cur, all))
-				if pi := predIdx(o.from); pi >= 0 {
+				if pi >= 0 {
 					for _, ph := range phis {
 						if _, ok := phiVals[ph]; ok {
 							bv := x.val(o.fr, ph.Edges[pi]).subst(cur, all)
@@ -1009,7 +1020,13 @@ func (x *Exec) execLoop(fr *Frame, li *loopInfo, pred *ssa.BasicBlock, st *State
 			for _, e := range exits {
 				if e.kind == outLoopExit && e.from == li.header {
 					e.st.done[all.key] = true
-					x.C.OnLoopExit(x, e.st, all, lastBacks)
+					var pl []*Term
+					for _, ph := range phis {
+						if v, ok := phiVals[ph]; ok {
+							pl = append(pl, v)
+						}
+					}
+					x.C.OnLoopExit(x, e.st, all, lastBacks, pl)
 				}
 				delete(e.st.drawn, cur.key)
 				res = append(res, e)
